@@ -11,6 +11,8 @@ import (
 func init() {
 	f := "internal/loader/buildtag/expr.go"
 	register(&Property{ID: "C24", Run: runC24, Mutants: []Mutant{
+		{Name: "excluded files deleted in place without stepping the index back", File: "internal/loader/loader.go", Old: "\t\tvar pkgFileNames = make([]string, 0, len(filenames))\n\t\tvar pkgFiles = make([]*ast.File, 0, len(pkg.Files))\n\t\tfor i, f := range pkg.Files {\n\t\t\tskiped, err := p.isSkipedAstFile(f)\n\t\t\tif err != nil {\n\t\t\t\treturn nil, err\n\t\t\t}\n\t\t\tif skiped {\n\t\t\t\tcontinue\n\t\t\t}\n\t\t\tpkgFileNames = append(pkgFileNames, filenames[i])\n\t\t\tpkgFiles = append(pkgFiles, f)\n\t\t}\n\t\tfilenames = pkgFileNames\n\t\tpkg.Files = pkgFiles\n", New: "\t\tfor i := 0; i < len(pkg.Files); i++ {\n\t\t\tskiped, err := p.isSkipedAstFile(pkg.Files[i])\n\t\t\tif err != nil {\n\t\t\t\treturn nil, err\n\t\t\t}\n\t\t\tif skiped {\n\t\t\t\tfilenames = append(filenames[:i], filenames[i+1:]...)\n\t\t\t\tpkg.Files = append(pkg.Files[:i], pkg.Files[i+1:]...)\n\t\t\t}\n\t\t}\n", Expect: "filter-loop-visits-all"},
+		{Name: "not() collapses a negated negation to the inner negation", File: "internal/loader/buildtag/expr.go", Old: "func not(x Expr) Expr { return &NotExpr{x} }", New: "func not(x Expr) Expr {\n\tif x, ok := x.(*NotExpr); ok {\n\t\treturn x\n\t}\n\treturn &NotExpr{x}\n}", Expect: "constructor-total"},
 		{Name: "negation printed without parentheses around ||", File: f, Old: "\tcase *AndExpr, *OrExpr:\n\t\ts = \"(\" + s + \")\"", New: "\tcase *AndExpr:\n\t\ts = \"(\" + s + \")\"", Expect: "print-precedence :: NotExpr.String"},
 		{Name: "build line searched outside the doc comment only for undocumented files", File: "internal/loader/loader.go", Old: "\t}\n\tif buildExpr == nil {\n\t\tfor _, comment := range f.Comments {", New: "\t} else {\n\t\tfor _, comment := range f.Comments {", Expect: "build-line-search"},
 		{Name: "AndExpr evaluates as or", File: f, Old: "\treturn xok && yok", New: "\treturn xok || yok", Expect: "evaluator-truth-table :: AndExpr"},
@@ -84,6 +86,8 @@ func runC24(c *Ctx) {
 	}
 	const rT, rG, rI, rP, rM = "evaluator-truth-table", "grammar-shape", "inclusion-polarity", "tag-predicate", "malformed-rejected"
 	c24Extra(c, p, bt, ld)
+	c24InPlaceDeletion(c, p, ld)
+	c24ConstructorTotal(c, p, bt)
 
 	// (1) truth tables
 	atomOf := func(e ast.Expr) string {
